@@ -31,6 +31,14 @@ def _budget():
     return task_budget()
 
 
+# round 22: an action whose NAME merely starts with "nop" (only the literal nop is an idle slot): it re-establishes (p ?i)
+C15_ACTIONS = seqsem.MA_ACTIONS + [("nopen", [("?a", "t1"), ("?i", "t1")], ["and"], ["and", ["p", "?i"]])]
+
+
+def _domain_text():
+    return seqsem.ma_domain_text(actions=C15_ACTIONS)
+
+
 def agent_of(call):
     return call[1][0]
 
@@ -56,6 +64,10 @@ def plans(tier, seed):
         # o2's quantified effect deletes (q o2 o1), its take re-establishes it, o1's help needs it: help cannot share take's step
         [("sweep", ["o2"]), ("take", ["o2", "o1"]), ("help", ["o1", "o2"])],
         [("take", ["o2", "o1"]), ("help", ["o1", "o2"]), ("sweep", ["o2"]), ("take", ["o2", "o1"]), ("help", ["o3", "o2"])],
+        # an action named nop... adds (p o3), the next agent's burn deletes it: they share o3 and must not share a step
+        [("nopen", ["o2", "o3"]), ("burn", ["o1", "o1", "o3"])],
+        [("nopen", ["o3", "o1"]), ("burn", ["o2", "o2", "o1"]), ("flag", ["o1"])],
+        [("burn", ["o1", "o1", "o3"]), ("nopen", ["o2", "o3"])],
     ]
     out = list(curated)
     n = 120 if tier == "quick" else 1200
@@ -68,6 +80,7 @@ def plans(tier, seed):
                     pool.append(("burn", [a, i, j]))
         pool += [("sweep", [a]), ("flag", [a]), ("charge", [a]), ("audit", [a])]
         pool += [("help", [a, b_]) for b_ in AGENTS3 if b_ != a]
+        pool += [("nopen", [a, i]) for i in items]
     while len(out) < len(curated) + n:
         k = rng.choice([2, 3, 3, 4] if tier == "quick" else [2, 3, 4, 4])
         out.append([rng.choice(pool) for _ in range(k)])
@@ -139,7 +152,7 @@ def run_convert(task):
     stats = Stats()
     try:
         lib.install_math_shim()
-        text = seqsem.ma_domain_text()
+        text = _domain_text()
         comp = seqsem.Composer(text, G.OBJECTS)
         plan = [(n, list(a)) for n, a in task["plan"]]
         agents = task["agents"]
@@ -297,7 +310,7 @@ def concrete_convert(task, atoms, fls):
     """the real converter on a concrete initial state + exact evaluation of the obligations"""
     from pddl_plus_parser.models import ActionCall
     from pddl_plus_parser.multi_agent import PlanConverter
-    text = seqsem.ma_domain_text()
+    text = _domain_text()
     comp = seqsem.Composer(text, G.OBJECTS)
     plan = [(n, list(a)) for n, a in task["plan"]]
     world = lib.World(text, G.OBJECTS)
@@ -492,7 +505,7 @@ def _dispatch(t):
 
 def twin():
     """the non-interference predicate must reject the textbook interfering pair (one deletes what the other needs)"""
-    comp = seqsem.Composer(seqsem.ma_domain_text(), G.OBJECTS)
+    comp = seqsem.Composer(_domain_text(), G.OBJECTS)
     calls = [("take", ["o1", "o3"]), ("burn", ["o2", "o1", "o3"])]
     s = z3.Solver()
     s.add(comp.call(*calls[0]).pre, comp.call(*calls[1]).pre)
